@@ -389,7 +389,8 @@ def liar_stream(rng, pid):
                 for n in sorted(set([max(1, k - 1), max(1, k), k + 1])):
                     progs = [[["chunk %d all" % n, "next", "chunk %d all" % n]], [["bufnew %d" % n, "bufnext all", "bufnext all", "bufnext all"]],
                              [["next", "chunk %d 1" % n, "len", "next"]], [["chunk %d all" % n], ["next", "next"]],
-                             [["foreach %d" % n], ["chunk %d all" % n]], [["chunk %d all" % n, "hasmore"]]]
+                             [["foreach %d" % n], ["chunk %d all" % n]], [["chunk %d all" % n, "hasmore"]],
+                             [["values"]], [["next", "idsvalues"]], [["values"], ["idsvalues"]], [["vnth 1", "values"]]]
                     for pr in progs:
                         for owner in ("intoseq all", "drop"):
                             if (i % 7) == 3:
@@ -399,6 +400,8 @@ def liar_stream(rng, pid):
                             c.owner = owner
                             if len(pr) > 1:
                                 c.sched = rand_sched(rng, len(pr), 12)
+                            if c.has_op("vnth", "ivnth"):
+                                c.tags = {"implonly", "nomodel"}
                             cases.append(c)
                             i += 1
     return cases
